@@ -159,6 +159,24 @@ claim("C12",
       "instance method swap_condition to observe proposals",
       "DESIGN.md 4/C12")
 
+claim("C17",
+      "step obligation with phi and EVERY message a fresh solver real: each real calculate_H_tau call must write exactly "
+      "the brute-force bond-percolation expectation of its motif with u_j = product of j's other motifs' messages "
+      "(polynomial identity => holds at every iteration of every run); whole runs with symbolic phi equal a reference "
+      "Gauss-Seidel sweep of the exact equations (25 iterations on tree-like networks); query histories; sweep coverage; "
+      "range, per-message monotonicity and (for <=3-vertex motifs) phi-monotonicity of the step",
+      "convergence to the fixed point is analysis and NOT decided; phi-monotonicity for motifs of >=4 vertices rests on "
+      "the proved identity plus the coupling lemma (not counted as discharged); pool of 5/7 networks; floats exact",
+      "DESIGN.md 4/C17")
+claim("C19",
+      "the four factories run with symbolic parameters; exp and real powers are uninterpreted functions with instantiated "
+      "true axioms, so the closed forms, the Poisson recurrence, non-negativity, geometric partial sums and "
+      "normalisation over the truncated support (every dropped term < 1e-6) are valid for the real functions when "
+      "the solver answers unsat; the truncation loop is unrolled by forking",
+      "the infinite sums / tail sizes are transcendental analysis and NOT decided; truncation index K<=6/10 (large alpha) "
+      "only; a model that does not reproduce numerically is reported undecided (abstraction artefact)",
+      "DESIGN.md 4/C19")
+
 
 def main():
     props = [json.loads(l)["id"] for l in open(os.path.join(ROOT, "properties.jsonl"))]
